@@ -38,7 +38,7 @@ use sozu_command_lib::{
     proto::command::{
         AddBackend, Cluster, ClusterInformation, ClusterInformations, ClusterMetrics, HardStop,
         ListWorkers, QueryClustersHashes, QueryMetricsOptions, Request, Response, ResponseContent,
-        ResponseStatus, RunState, SocketAddress, Status, WorkerMetrics, WorkerRequest,
+        ResponseStatus, RunState, SocketAddress, SoftStop, Status, WorkerMetrics, WorkerRequest,
         WorkerResponse, request::RequestType, response_content::ContentType,
     },
     ready::Ready,
@@ -539,6 +539,10 @@ const LATE_AFTER_TIMEOUT: Duration = Duration::from_millis(500);
 const CHATTER_BURST: usize = 3000;
 /// scenarios with two overlapping deadlines (see gen_scenario)
 const OVERLAP_CASES: u64 = 8;
+/// scenarios where a worker answers and closes its channel while the hub thread is held busy
+const SAME_TICK_CASES: u64 = 16;
+/// LoadState of sound / damaged / unreadable state files
+const DAMAGED_STATE_CASES: u64 = 16;
 
 #[derive(Clone, Copy, Debug, PartialEq, Eq, PartialOrd, Ord, Hash)]
 enum BehClass {
@@ -550,9 +554,14 @@ enum BehClass {
     LateOk,
     Processing,
     UnknownId,
+    /// writes its successful final answer and closes the channel at once (what a worker that
+    /// exits right after acknowledging does): the hub sees readable and hang-up together
+    OkThenClose,
+    /// never a final answer, but a PROCESSING notice more often than once per worker timeout
+    EndlessProcessing,
 }
 
-const CLASSES: [BehClass; 8] = [
+const CLASSES: [BehClass; 10] = [
     BehClass::Ok,
     BehClass::Failure,
     BehClass::Silent,
@@ -561,6 +570,8 @@ const CLASSES: [BehClass; 8] = [
     BehClass::LateOk,
     BehClass::Processing,
     BehClass::UnknownId,
+    BehClass::OkThenClose,
+    BehClass::EndlessProcessing,
 ];
 
 impl BehClass {
@@ -574,7 +585,14 @@ impl BehClass {
             BehClass::LateOk => "late_ok",
             BehClass::Processing => "processing_then_final",
             BehClass::UnknownId => "unknown_id",
+            BehClass::OkThenClose => "ok_then_close",
+            BehClass::EndlessProcessing => "endless_processing",
         }
+    }
+    /// the worker never sends a final answer and never closes: a soft stop, which has no
+    /// deadline by design, legitimately waits for such a worker for ever
+    fn never_ends(self) -> bool {
+        matches!(self, BehClass::Silent | BehClass::UnknownId | BehClass::EndlessProcessing)
     }
 }
 
@@ -584,7 +602,8 @@ struct Beh {
     class: BehClass,
     /// delay of the (first) final answer / of the close, ms after receipt
     delay_ms: u64,
-    /// DupOk: gap before the second Ok; Processing: number of notices
+    /// DupOk: gap before the second Ok; Processing: number of notices; EndlessProcessing:
+    /// period of the notices in ms
     k: u64,
     /// Processing: the final is a failure
     final_fail: bool,
@@ -597,13 +616,8 @@ impl Beh {
         json!({"class": self.class.name(), "delay_ms": self.delay_ms, "k": self.k,
                "final_failure": self.final_fail, "on_message": self.target_msg})
     }
-    /// the script sends a successful final answer for every message, in time
-    fn scripted_ok_in_time(&self) -> bool {
-        match self.class {
-            BehClass::Ok | BehClass::DupOk => true,
-            BehClass::Processing => !self.final_fail,
-            _ => false,
-        }
+    fn plain_ok(delay_ms: u64) -> Beh {
+        Beh { class: BehClass::Ok, delay_ms, k: 0, final_fail: false, target_msg: 0 }
     }
 }
 
@@ -618,6 +632,7 @@ enum Verb {
     LoadState,
     Reload,
     HardStop,
+    SoftStop,
 }
 
 impl Verb {
@@ -630,6 +645,7 @@ impl Verb {
             Verb::LoadState => "load_state",
             Verb::Reload => "reload",
             Verb::HardStop => "hard_stop",
+            Verb::SoftStop => "soft_stop",
         }
     }
     fn name(self) -> &'static str {
@@ -643,16 +659,20 @@ impl Verb {
             Verb::LoadState => "LoadState",
             Verb::Reload => "ReloadConfiguration",
             Verb::HardStop => "HardStop",
+            Verb::SoftStop => "SoftStop",
         }
     }
     /// verbs whose worker-side request carries nothing that identifies the client request: at
     /// most one of each kind is in flight per hub
     fn untagged(self) -> bool {
-        matches!(self, Verb::Status | Verb::QueryClustersHashes | Verb::HardStop)
+        matches!(self, Verb::Status | Verb::QueryClustersHashes | Verb::HardStop | Verb::SoftStop)
+    }
+    fn is_stop(self) -> bool {
+        matches!(self, Verb::HardStop | Verb::SoftStop)
     }
 }
 
-const FAMILY_VERBS: [Verb; 7] = [
+const FAMILY_VERBS: [Verb; 8] = [
     Verb::AddCluster,
     Verb::QueryClusterById,
     Verb::QueryMetrics,
@@ -660,7 +680,32 @@ const FAMILY_VERBS: [Verb; 7] = [
     Verb::LoadState,
     Verb::Reload,
     Verb::HardStop,
+    Verb::SoftStop,
 ];
+
+/// what is wrong with the state file of a LoadState
+#[derive(Clone, Copy, Debug, PartialEq, Eq)]
+enum Damage {
+    /// a sound file
+    None,
+    /// valid records, then a record cut in the middle (an interrupted `state save`)
+    TruncatedTail,
+    /// valid records, then a terminated record that is not a request
+    GarbageTail,
+    /// nothing readable at all (nothing is ever handed to the workers)
+    AllGarbage,
+}
+
+impl Damage {
+    fn name(self) -> &'static str {
+        match self {
+            Damage::None => "sound",
+            Damage::TruncatedTail => "valid_records_then_truncated_record",
+            Damage::GarbageTail => "valid_records_then_garbage_record",
+            Damage::AllGarbage => "no_readable_record",
+        }
+    }
+}
 
 #[derive(Clone, Debug)]
 struct Req {
@@ -672,6 +717,17 @@ struct Req {
     beh: Vec<Beh>,
     /// pause before sending, ms
     pre_delay_ms: u64,
+    /// LoadState only
+    damage: Damage,
+    /// keep the hub thread busy (another client's SaveState into a FIFO nobody reads yet) from
+    /// .0 ms to .1 ms after this request was sent
+    stall_ms: Option<(u64, u64)>,
+}
+
+impl Req {
+    fn new(verb: Verb, tag: String, n_msgs: usize, beh: Vec<Beh>, pre_delay_ms: u64) -> Req {
+        Req { verb, tag, n_msgs, beh, pre_delay_ms, damage: Damage::None, stall_ms: None }
+    }
 }
 
 #[derive(Clone, Debug)]
@@ -689,10 +745,24 @@ struct Scenario {
     /// workers that, besides following their script, keep sending answers with unknown ids
     /// while a client request is in flight
     chatty: Vec<usize>,
+    /// an assignment that is not run (soft stop with a worker that never ends: waits by design)
+    skipped_by_design: bool,
+}
+
+impl Scenario {
+    fn new(case: u64, seed: u64, workers: usize, clients: Vec<Vec<Req>>, stop: Option<Req>) -> Scenario {
+        Scenario { case, seed, workers, clients, stop, exhaustive_block: false, pre_closed: vec![], chatty: vec![], skipped_by_design: false }
+    }
+    /// a single request: a stop verb goes to the stop slot
+    fn single(case: u64, seed: u64, workers: usize, req: Req) -> Scenario {
+        if req.verb.is_stop() { Scenario::new(case, seed, workers, vec![], Some(req)) } else { Scenario::new(case, seed, workers, vec![vec![req]], None) }
+    }
 }
 
 fn req_json(r: &Req) -> Value {
     json!({"verb": r.verb.name(), "tag": r.tag, "worker_messages": r.n_msgs, "pre_delay_ms": r.pre_delay_ms,
+           "state_file": if r.verb == Verb::LoadState { Some(r.damage.name()) } else { None },
+           "hub_thread_held_busy_ms_after_send": r.stall_ms.map(|(a, b)| vec![a, b]),
            "behaviours_by_worker": r.beh.iter().map(|b| b.json()).collect::<Vec<_>>()})
 }
 
@@ -708,6 +778,7 @@ fn gen_beh(rng: &mut Rng, class: BehClass, n_msgs: usize) -> Beh {
     let (k, final_fail) = match class {
         BehClass::DupOk => (*rng.pick(&[0u64, 10, 80]), false),
         BehClass::Processing => (rng.range(1, 3), rng.chance(1, 4)),
+        BehClass::EndlessProcessing => (*rng.pick(&[150u64, 300, 600]), false),
         _ => (0, false),
     };
     Beh {
@@ -727,7 +798,8 @@ fn n_msgs_for(verb: Verb, rng: &mut Rng) -> usize {
     }
 }
 
-const EXHAUSTIVE_PER_FAMILY: u64 = 8 + 64;
+const N_CLASSES: u64 = CLASSES.len() as u64;
+const EXHAUSTIVE_PER_FAMILY: u64 = N_CLASSES + N_CLASSES * N_CLASSES;
 
 fn exhaustive_block_len() -> u64 {
     FAMILY_VERBS.len() as u64 * EXHAUSTIVE_PER_FAMILY
@@ -741,10 +813,10 @@ fn gen_scenario(seed: u64, case: u64, exhaustive_reps: u64, race_cases: u64) -> 
         let idx = case % block;
         let fam = (idx / EXHAUSTIVE_PER_FAMILY) as usize;
         let a = idx % EXHAUSTIVE_PER_FAMILY;
-        let classes: Vec<BehClass> = if a < 8 {
+        let classes: Vec<BehClass> = if a < N_CLASSES {
             vec![CLASSES[a as usize]]
         } else {
-            vec![CLASSES[((a - 8) / 8) as usize], CLASSES[((a - 8) % 8) as usize]]
+            vec![CLASSES[((a - N_CLASSES) / N_CLASSES) as usize], CLASSES[((a - N_CLASSES) % N_CLASSES) as usize]]
         };
         let mut verb = FAMILY_VERBS[fam];
         if case >= block {
@@ -757,9 +829,11 @@ fn gen_scenario(seed: u64, case: u64, exhaustive_reps: u64, race_cases: u64) -> 
         }
         let n_msgs = n_msgs_for(verb, &mut rng);
         let beh: Vec<Beh> = classes.iter().map(|c| gen_beh(&mut rng, *c, n_msgs)).collect();
-        let req = Req { verb, tag: format!("t{case}c0r0x"), n_msgs, beh, pre_delay_ms: 0 };
-        let (clients, stop) = if verb == Verb::HardStop { (vec![], Some(req)) } else { (vec![vec![req]], None) };
-        return Scenario { case, seed, workers: classes.len(), clients, stop, exhaustive_block: true, pre_closed: vec![], chatty: vec![] };
+        let req = Req::new(verb, format!("t{case}c0r0x"), n_msgs, beh, 0);
+        let mut s = Scenario::single(case, seed, classes.len(), req);
+        s.exhaustive_block = true;
+        s.skipped_by_design = verb == Verb::SoftStop && classes.iter().any(|c| c.never_ends());
+        return s;
     }
     let mut case_in_rest = case - block * exhaustive_reps;
     if case_in_rest < OVERLAP_CASES {
@@ -777,11 +851,50 @@ fn gen_scenario(seed: u64, case: u64, exhaustive_reps: u64, race_cases: u64) -> 
         let beh_b = (0..workers)
             .map(|w| Beh { class: if w == mute_worker { BehClass::Silent } else { BehClass::Ok }, delay_ms: 0, k: 0, final_fail: false, target_msg: 0 })
             .collect();
-        let a = Req { verb: verb_a, tag: format!("t{case}c0r0x"), n_msgs: 1, beh: beh_a, pre_delay_ms: 0 };
-        let b = Req { verb: verb_b, tag: format!("t{case}c1r0x"), n_msgs: 1, beh: beh_b, pre_delay_ms: rng.range(600, 800) };
-        return Scenario { case, seed, workers, clients: vec![vec![a], vec![b]], stop: None, exhaustive_block: false, pre_closed: vec![], chatty: vec![] };
+        let a = Req::new(verb_a, format!("t{case}c0r0x"), 1, beh_a, 0);
+        let b = Req::new(verb_b, format!("t{case}c1r0x"), 1, beh_b, rng.range(600, 800));
+        return Scenario::new(case, seed, workers, vec![vec![a], vec![b]], None);
     }
     case_in_rest -= OVERLAP_CASES;
+    if case_in_rest < SAME_TICK_CASES {
+        // same-tick block: one worker acknowledges and closes its channel while the hub thread is
+        // blocked by another client's SaveState into a FIFO that nobody reads yet: when the hub
+        // comes back it finds the answer and the hang-up of that worker in one and the same event
+        let verb = FAMILY_VERBS[(case_in_rest % 8) as usize];
+        let workers = 1 + (case_in_rest / 8) as usize % 2;
+        let n_msgs = n_msgs_for(verb, &mut rng);
+        let closer = rng.usize_below(workers);
+        let beh = (0..workers)
+            .map(|w| {
+                if w == closer {
+                    Beh { class: BehClass::OkThenClose, delay_ms: 150, k: 0, final_fail: false, target_msg: if n_msgs > 1 { n_msgs - 1 } else { 0 } }
+                } else {
+                    Beh::plain_ok(*rng.pick(&[0u64, 100, 200]))
+                }
+            })
+            .collect();
+        let mut req = Req::new(verb, format!("t{case}c0r0x"), n_msgs, beh, 0);
+        req.stall_ms = Some((40, 350));
+        return Scenario::single(case, seed, workers, req);
+    }
+    case_in_rest -= SAME_TICK_CASES;
+    if case_in_rest < DAMAGED_STATE_CASES {
+        // state files: sound, damaged tail (truncated / garbage record after valid ones), nothing
+        // readable; the workers acknowledge the valid head at once, or one of them stays mute
+        let damage = [Damage::TruncatedTail, Damage::GarbageTail, Damage::AllGarbage, Damage::None][(case_in_rest % 4) as usize];
+        let workers = 1 + (case_in_rest / 4) as usize % 2;
+        let mute = case_in_rest >= 8;
+        let n_msgs = if damage == Damage::AllGarbage { 0 } else { rng.urange(1, 3) };
+        let beh = (0..workers)
+            .map(|w| if mute && w == 0 { Beh { class: BehClass::Silent, delay_ms: 0, k: 0, final_fail: false, target_msg: 0 } } else { Beh::plain_ok(*rng.pick(&[0u64, 0, 60])) })
+            .collect();
+        let mut req = Req::new(Verb::LoadState, format!("t{case}c0r0x"), n_msgs, beh, 0);
+        req.damage = damage;
+        // a second request on the same connection would take a stray second answer for its own
+        let follow = Req::new(Verb::AddCluster, format!("t{case}c0r1x"), 1, (0..workers).map(|_| Beh::plain_ok(0)).collect(), 0);
+        return Scenario::new(case, seed, workers, vec![vec![req, follow]], None);
+    }
+    case_in_rest -= DAMAGED_STATE_CASES;
     if case_in_rest < race_cases {
         // race block: well-behaved but very talkative workers (a stream of answers with unknown
         // ids around each dispatch, every real request acknowledged at once), so that worker
@@ -792,10 +905,12 @@ fn gen_scenario(seed: u64, case: u64, exhaustive_reps: u64, race_cases: u64) -> 
         for r in 0..n_reqs {
             let verb = *rng.pick(&[Verb::AddCluster, Verb::LoadState, Verb::LoadState, Verb::LoadState, Verb::Reload, Verb::Reload, Verb::QueryClusterById]);
             let n_msgs = if verb == Verb::LoadState { 3 } else { n_msgs_for(verb, &mut rng) };
-            let beh = (0..workers).map(|_| Beh { class: BehClass::Ok, delay_ms: 0, k: 0, final_fail: false, target_msg: 0 }).collect();
-            reqs.push(Req { verb, tag: format!("t{case}c0r{r}x"), n_msgs, beh, pre_delay_ms: rng.range(0, 10) });
+            let beh = (0..workers).map(|_| Beh::plain_ok(0)).collect();
+            reqs.push(Req::new(verb, format!("t{case}c0r{r}x"), n_msgs, beh, rng.range(0, 10)));
         }
-        return Scenario { case, seed, workers, clients: vec![reqs], stop: None, exhaustive_block: false, pre_closed: vec![], chatty: (0..workers).collect() };
+        let mut s = Scenario::new(case, seed, workers, vec![reqs], None);
+        s.chatty = (0..workers).collect();
+        return s;
     }
     // sampled part: mostly W in 3..4, 1..8 concurrent clients, 1..3 requests each
     let workers = match rng.below(10) {
@@ -813,7 +928,7 @@ fn gen_scenario(seed: u64, case: u64, exhaustive_reps: u64, race_cases: u64) -> 
     // how hostile the workers are in this case
     let ok_weight = *rng.pick(&[50u64, 70, 85, 95]);
     let pick_class = |rng: &mut Rng| -> BehClass {
-        if rng.below(100) < ok_weight { BehClass::Ok } else { CLASSES[rng.urange(1, 7)] }
+        if rng.below(100) < ok_weight { BehClass::Ok } else { CLASSES[rng.urange(1, CLASSES.len() - 1)] }
     };
     let mut clients = Vec::new();
     for c in 0..n_clients {
@@ -830,7 +945,7 @@ fn gen_scenario(seed: u64, case: u64, exhaustive_reps: u64, race_cases: u64) -> 
                 16..=17 => Verb::LoadState,
                 _ => Verb::Reload,
             };
-            let n_msgs = n_msgs_for(verb, &mut rng);
+            let mut n_msgs = n_msgs_for(verb, &mut rng);
             let mut beh = Vec::new();
             for _ in 0..workers {
                 let mut class = pick_class(&mut rng);
@@ -840,17 +955,38 @@ fn gen_scenario(seed: u64, case: u64, exhaustive_reps: u64, race_cases: u64) -> 
                 }
                 beh.push(gen_beh(&mut rng, class, n_msgs));
             }
-            reqs.push(Req { verb, tag: format!("t{case}c{c}r{r}x"), n_msgs, beh, pre_delay_ms: *rng.pick(&[0u64, 0, 10, 50, 120, 400, 900]) });
+            let mut req = Req::new(verb, format!("t{case}c{c}r{r}x"), n_msgs, Vec::new(), *rng.pick(&[0u64, 0, 10, 50, 120, 400, 900]));
+            if verb == Verb::LoadState && rng.chance(1, 4) {
+                req.damage = *rng.pick(&[Damage::TruncatedTail, Damage::GarbageTail, Damage::AllGarbage]);
+                if req.damage == Damage::AllGarbage {
+                    n_msgs = 0;
+                }
+                for b in beh.iter_mut() {
+                    b.target_msg = b.target_msg.min(n_msgs.saturating_sub(1));
+                }
+            }
+            req.n_msgs = n_msgs;
+            req.beh = beh;
+            reqs.push(req);
         }
         clients.push(reqs);
     }
     let stop = if rng.chance(1, 3) {
-        let beh = (0..workers).map(|_| { let c = pick_class(&mut rng); gen_beh(&mut rng, c, 1) }).collect();
-        Some(Req { verb: Verb::HardStop, tag: format!("t{case}c{n_clients}r0x"), n_msgs: 1, beh, pre_delay_ms: 0 })
+        let verb = if rng.bool() { Verb::HardStop } else { Verb::SoftStop };
+        let beh = (0..workers)
+            .map(|_| {
+                let mut c = pick_class(&mut rng);
+                if verb == Verb::SoftStop && c.never_ends() {
+                    c = BehClass::OkThenClose; // a soft stop waits for such a worker by design
+                }
+                gen_beh(&mut rng, c, 1)
+            })
+            .collect();
+        Some(Req::new(verb, format!("t{case}c{n_clients}r0x"), 1, beh, 0))
     } else {
         None
     };
-    Scenario { case, seed, workers, clients, stop, exhaustive_block: false, pre_closed: vec![], chatty: vec![] }
+    Scenario::new(case, seed, workers, clients, stop)
 }
 
 // =================================================================================================
@@ -876,6 +1012,9 @@ struct ReqObs {
     harness_error: Option<String>,
     connection_closed_by_hub: bool,
     skipped: bool,
+    /// the hub thread was to be held busy during this request: how long the blocking SaveState
+    /// of the helper client took (ms), or what went wrong
+    stall: Option<Result<u64, String>>,
 }
 
 /// what a scripted worker saw and did for one client request
@@ -914,6 +1053,11 @@ enum Rec {
 
 enum Action {
     Send(WorkerResponse, Rec),
+    /// write the answer and close the channel at once, without giving the hub a chance to read
+    /// in between
+    SendThenClose(WorkerResponse, Rec),
+    /// send, and again every so many ms until the case ends
+    Repeat(WorkerResponse, u64),
     Close,
 }
 
@@ -926,6 +1070,7 @@ fn worker_key(req: &WorkerRequest) -> Option<String> {
         RequestType::Status(_) => Some("Status".into()),
         RequestType::QueryClustersHashes(_) => Some("QueryClustersHashes".into()),
         RequestType::HardStop(_) => Some("HardStop".into()),
+        RequestType::SoftStop(_) => Some("SoftStop".into()),
         _ => None,
     }
 }
@@ -990,7 +1135,16 @@ fn worker_loop(
         while i < schedule.len() {
             if schedule[i].0 <= now {
                 let (_, action) = schedule.remove(i);
+                let (action, close_after) = match action {
+                    Action::SendThenClose(r, rec) => (Action::Send(r, rec), true),
+                    Action::Repeat(r, period) => {
+                        schedule.push((now + Duration::from_millis(period), Action::Repeat(r.clone(), period)));
+                        (Action::Send(r, Rec::No), false)
+                    }
+                    other => (other, false),
+                };
                 match action {
+                    Action::SendThenClose(..) | Action::Repeat(..) => {}
                     Action::Send(r, rec) => {
                         let before = Instant::now();
                         if w.chan.is_closed() {
@@ -1009,6 +1163,10 @@ fn worker_loop(
                         }
                         if let Err(e) = w.send(&r) {
                             shared.lock().unwrap().worker_errors.push(format!("worker {widx} send: {e}"));
+                        }
+                        if close_after {
+                            w.close();
+                            shared.lock().unwrap().closed_at.insert(widx, Instant::now());
                         }
                     }
                     Action::Close => {
@@ -1088,7 +1246,15 @@ fn worker_loop(
                 // the duplicate is deliberately not recorded as a second acknowledgement
                 schedule.push((at + Duration::from_millis(b.k), Action::Send(ok(content), Rec::ExtraOk(c, q))));
             }
-            BehClass::LateOk => schedule.push((got_at + timeout + LATE_AFTER_TIMEOUT + Duration::from_millis(b.delay_ms), Action::Send(ok(content), Rec::ExtraOk(c, q)))),
+            BehClass::LateOk => {
+                // a soft stop has no deadline by design: there a late answer is a plain answer
+                let rec = if r.verb == Verb::SoftStop { Rec::Ok(c, q) } else { Rec::ExtraOk(c, q) };
+                schedule.push((got_at + timeout + LATE_AFTER_TIMEOUT + Duration::from_millis(b.delay_ms), Action::Send(ok(content), rec)));
+            }
+            BehClass::OkThenClose => schedule.push((at, Action::SendThenClose(ok(content), Rec::Ok(c, q)))),
+            BehClass::EndlessProcessing => {
+                schedule.push((got_at + Duration::from_millis(b.k.min(b.delay_ms)), Action::Repeat(resp(&req.id, ResponseStatus::Processing, format!("working {tag}"), None), b.k)));
+            }
             BehClass::Processing => {
                 for i in 0..b.k {
                     let t = got_at + Duration::from_millis(b.delay_ms * (i + 1) / (b.k + 1));
@@ -1110,9 +1276,11 @@ fn worker_loop(
     w.close();
 }
 
-fn write_state_file(path: &Path, tag: &str, n: usize) -> Result<(), String> {
+fn write_state_file(path: &Path, tag: &str, n: usize, damage: Damage) -> Result<(), String> {
     let mut f = fs::File::create(path).map_err(|e| format!("create state file: {e}"))?;
-    for i in 0..n {
+    // one record more than the workers will see: the damaged tail is made out of it
+    let records = if damage == Damage::TruncatedTail { n + 1 } else { n };
+    for i in 0..records {
         let content: Request = if i == 0 {
             RequestType::AddCluster(Cluster { cluster_id: tag.to_owned(), ..Default::default() }).into()
         } else {
@@ -1126,7 +1294,15 @@ fn write_state_file(path: &Path, tag: &str, n: usize) -> Result<(), String> {
         };
         let wr = WorkerRequest { id: format!("SAVE-{i}"), content };
         let line = serde_json::to_string(&wr).map_err(|e| format!("serialise state: {e}"))?;
+        if damage == Damage::TruncatedTail && i == n {
+            // the file ends in the middle of this record
+            f.write_all(&line.as_bytes()[..line.len() / 2]).map_err(|e| format!("write state: {e}"))?;
+            break;
+        }
         f.write_all(line.as_bytes()).and_then(|_| f.write_all(b"\n\0")).map_err(|e| format!("write state: {e}"))?;
+    }
+    if matches!(damage, Damage::GarbageTail | Damage::AllGarbage) {
+        f.write_all(b"{\"id\":\"SAVE-x\",\"content\":\"this is not a request\"}\n\0").map_err(|e| format!("write state: {e}"))?;
     }
     Ok(())
 }
@@ -1160,7 +1336,7 @@ fn build_request(r: &Req, run_dir: &Path) -> Result<RequestType, String> {
         Verb::Status => RequestType::Status(Status {}),
         Verb::LoadState => {
             let p = run_dir.join(format!("{}.state", r.tag));
-            write_state_file(&p, &r.tag, r.n_msgs)?;
+            write_state_file(&p, &r.tag, r.n_msgs, r.damage)?;
             RequestType::LoadState(p.to_string_lossy().into_owned())
         }
         Verb::Reload => {
@@ -1169,6 +1345,7 @@ fn build_request(r: &Req, run_dir: &Path) -> Result<RequestType, String> {
             RequestType::ReloadConfiguration(p.to_string_lossy().into_owned())
         }
         Verb::HardStop => RequestType::HardStop(HardStop {}),
+        Verb::SoftStop => RequestType::SoftStop(SoftStop {}),
     })
 }
 
@@ -1190,6 +1367,11 @@ fn do_request_with(client: &mut HubClient, r: &Req, rt: RequestType, timeout: Du
     let mut linger = Duration::from_millis(250);
     if r.beh.iter().any(|b| b.class == BehClass::LateOk) {
         linger = Duration::from_millis(300);
+    }
+    if r.verb == Verb::LoadState && r.damage != Damage::None {
+        // a task that outlives the refusal would answer again once the workers acknowledged
+        // the readable head, or when their deadline passes
+        linger = timeout + Duration::from_millis(400);
     }
     let mut stop_at = deadline;
     loop {
@@ -1236,6 +1418,50 @@ fn do_request_with(client: &mut HubClient, r: &Req, rt: RequestType, timeout: Du
     if let Some(f) = after_dispatch.take() {
         f();
     }
+}
+
+/// Keep the (single-threaded) hub busy from `from_ms` to `to_ms` after now: a helper client asks
+/// for a SaveState into a FIFO, which blocks the hub in open(2) until somebody opens the other
+/// end. Returns how long the SaveState took.
+fn hold_hub_busy(sock: &str, run_dir: &Path, tag: &str, from_ms: u64, to_ms: u64) -> Result<u64, String> {
+    use std::os::unix::fs::OpenOptionsExt;
+    let t0 = Instant::now();
+    let fifo = run_dir.join(format!("{tag}.fifo"));
+    let c_path = std::ffi::CString::new(fifo.to_string_lossy().as_bytes()).map_err(|e| e.to_string())?;
+    // SAFETY: valid NUL-terminated path
+    if unsafe { libc::mkfifo(c_path.as_ptr(), 0o600) } != 0 {
+        return Err(format!("mkfifo: {}", std::io::Error::last_os_error()));
+    }
+    let mut client = HubClient::connect(sock)?;
+    std::thread::sleep((t0 + Duration::from_millis(from_ms)).saturating_duration_since(Instant::now()));
+    let sent = Instant::now();
+    client.send(RequestType::SaveState(fifo.to_string_lossy().into_owned()))?;
+    std::thread::sleep((t0 + Duration::from_millis(to_ms)).saturating_duration_since(Instant::now()));
+    // opening the read end (without blocking ourselves) releases the hub; keep it open until the
+    // hub has answered, so that the hub can never block on this FIFO again
+    let mut reader = fs::OpenOptions::new()
+        .read(true)
+        .custom_flags(libc::O_NONBLOCK)
+        .open(&fifo)
+        .map_err(|e| format!("open fifo: {e}"))?;
+    let give_up = Instant::now() + Duration::from_secs(4);
+    let mut took = None;
+    let mut buf = [0u8; 4096];
+    while Instant::now() < give_up {
+        let _ = std::io::Read::read(&mut reader, &mut buf);
+        match client.recv_until(Instant::now() + Duration::from_millis(10)) {
+            Recv::Msg(m) if m.status != ResponseStatus::Processing as i32 => {
+                took = Some(sent.elapsed().as_millis() as u64);
+                break;
+            }
+            Recv::Msg(_) | Recv::Timeout => {}
+            Recv::Closed => break,
+            Recv::Error(e) => return Err(e),
+        }
+    }
+    drop(reader);
+    let _ = fs::remove_file(&fifo);
+    took.ok_or_else(|| "no answer to the helper SaveState".to_owned())
 }
 
 struct CaseRun {
@@ -1298,7 +1524,7 @@ fn run_scenario(root: &Path, s: &Scenario) -> CaseRun {
     let stop = AtomicBool::new(false);
     let chatter_on = AtomicU64::new(0);
     let untagged_locks: HashMap<&'static str, Mutex<()>> =
-        [("Status", Mutex::new(())), ("QueryClustersHashes", Mutex::new(())), ("HardStop", Mutex::new(()))].into_iter().collect();
+        [("Status", Mutex::new(())), ("QueryClustersHashes", Mutex::new(())), ("HardStop", Mutex::new(())), ("SoftStop", Mutex::new(()))].into_iter().collect();
     let run_dir = lab.run_dir.clone();
     let sock = lab.sock_path.clone();
 
@@ -1336,7 +1562,17 @@ fn run_scenario(root: &Path, s: &Scenario) -> CaseRun {
             move || { chatter_on.fetch_sub(1, Ordering::SeqCst); }
         };
         std::thread::sleep(Duration::from_millis(if s.chatty.is_empty() { 0 } else { 5 }));
-        do_request_with(&mut client, r, rt, timeout, &mut obs[q], Some(&chatter_off));
+        match r.stall_ms {
+            None => do_request_with(&mut client, r, rt, timeout, &mut obs[q], Some(&chatter_off)),
+            Some((from_ms, to_ms)) => {
+                let stall = std::thread::scope(|sc| {
+                    let h = sc.spawn(|| hold_hub_busy(&sock, &run_dir, &r.tag, from_ms, to_ms));
+                    do_request_with(&mut client, r, rt, timeout, &mut obs[q], Some(&chatter_off));
+                    h.join().unwrap_or_else(|_| Err("helper thread panicked".into()))
+                });
+                obs[q].stall = Some(stall);
+            }
+        }
             if obs[q].final_idx.is_none() {
                 // the connection is in an unknown state: the remaining requests are not sent
                 for o in obs.iter_mut().skip(q + 1) {
@@ -1432,6 +1668,10 @@ enum Verdict {
     Fine,
     /// no final answer by the deadline: to be re-run in isolation
     Miss,
+    /// a verdict that holds only if the hub thread got to run on time (an answer written
+    /// after the worker timeout was accepted: a hub starved of CPU notices its own deadline
+    /// late too): reported only when it reproduces on a fresh hub. (signature, what, witness)
+    TimeBound(String, String, Value),
 }
 
 struct Judge<'a> {
@@ -1513,6 +1753,14 @@ impl Judge<'_> {
             return Verdict::Fine;
         }
         rep.obs("client_requests_judged", 1);
+        match &o.stall {
+            Some(Ok(ms)) if r.stall_ms.map(|(a, b)| *ms + 30 >= b - a).unwrap_or(false) => rep.obs("hub_thread_held_busy_confirmed", 1),
+            Some(_) => rep.obs("hub_thread_not_held_busy_as_planned", 1),
+            None => {}
+        }
+        if r.verb == Verb::LoadState {
+            rep.obs(&format!("load_state_file:{}", r.damage.name()), 1);
+        }
         rep.obs(&format!("verb:{}", r.verb.name()), 1);
         for b in &r.beh {
             rep.obs(&format!("beh:{}:{}", fam, b.class.name()), 1);
@@ -1628,7 +1876,8 @@ impl Judge<'_> {
             } else if b.class == BehClass::LateOk && side.extra_ok_sent.iter().any(|t| *t <= t_final) {
                 // answered, but only after the worker timeout had passed
                 "late_answer"
-            } else if matches!(b.class, BehClass::Silent | BehClass::UnknownId | BehClass::LateOk) {
+            } else if matches!(b.class, BehClass::Silent | BehClass::UnknownId | BehClass::LateOk | BehClass::EndlessProcessing) {
+                // processing notices are not an answer
                 "silent_worker"
             } else if ttf + 50 >= self.run_timeout_ms() {
                 // had the whole worker timeout and did not answer within it
@@ -1735,16 +1984,17 @@ impl Judge<'_> {
         let who: Vec<String> = unacked.iter().map(|(w, cause)| format!("worker {w}: {cause}")).collect();
         // every task type counts answers with the same gatherer: one signature for duplicates
         let signature = if class == "ok_by_duplicate_answer" { format!("hub/{class}") } else { format!("hub/{class}/{fam}") };
-        self.violate(rep, 
-            &signature,
-            &format!(
-                "{} got final OK after {ttf} ms ({:?}) although not every worker alive at dispatch had acknowledged: {}",
-                r.verb.name(),
-                fin.message.chars().take(80).collect::<String>(),
-                who.join(", ")
-            ),
-            self.witness(c, q, "final FAILURE (a live worker failed, disconnected or did not answer within worker_timeout)", json!({"unacknowledged": who})),
+        let what = format!(
+            "{} got final OK after {ttf} ms ({:?}) although not every worker alive at dispatch had acknowledged: {}",
+            r.verb.name(),
+            fin.message.chars().take(80).collect::<String>(),
+            who.join(", ")
         );
+        let witness = self.witness(c, q, "final FAILURE (a live worker failed, disconnected or did not answer within worker_timeout)", json!({"unacknowledged": who}));
+        if class == "ok_despite_late_answer" {
+            return Verdict::TimeBound(signature, what, witness);
+        }
+        self.violate(rep, &signature, &what, witness);
         Verdict::Fine
     }
 
@@ -1754,12 +2004,16 @@ impl Judge<'_> {
         let r = self.req(c, q);
         let mut any = false;
         for w in 0..self.s.workers {
-            if self.run.shared.closed_at.contains_key(&w) {
-                return false;
-            }
+            let closed = self.run.shared.closed_at.get(&w).copied();
             let Some(side) = self.run.shared.worker_side.get(&(c, q, w)) else { return false };
             if side.received < r.n_msgs || side.ok_sent.len() < side.received || !side.fail_sent.is_empty() {
                 return false;
+            }
+            // a worker that closed its channel after its last acknowledgement did acknowledge
+            if let Some(t) = closed {
+                if side.ok_sent.iter().any(|a| *a > t) {
+                    return false;
+                }
             }
             any = true;
         }
@@ -1771,8 +2025,22 @@ impl Judge<'_> {
         let r = self.req(c, q);
         let fam = r.verb.family();
         let all_acked = self.all_workers_acknowledged(c, q);
+        // some worker keeps sending processing notices for this request: with a deadline that
+        // notices cannot push back the request would have ended, whatever the other workers did
+        let only_notices_missing = !all_acked
+            && (0..self.s.workers).any(|w| {
+                r.beh[w].class == BehClass::EndlessProcessing
+                    && match (self.run.shared.closed_at.get(&w), self.run.obs[c][q].sent_at) {
+                        // still sending notices well past the worker timeout
+                        (Some(closed), Some(sent)) => *closed > sent + Duration::from_millis(2 * self.run_timeout_ms()),
+                        _ => true,
+                    }
+                    && self.run.shared.worker_side.get(&(c, q, w)).map(|side| side.received > r.beh[w].target_msg).unwrap_or(false)
+            });
         let sig = if all_acked {
             format!("hub/no_final_answer_although_all_workers_acknowledged/{fam}")
+        } else if only_notices_missing {
+            format!("hub/no_final_answer_while_processing_notices_keep_coming/{fam}")
         } else {
             format!("hub/no_final_answer/{fam}")
         };
@@ -1902,12 +2170,24 @@ fn isolated(s: &Scenario, run: &CaseRun, c: usize, q: usize) -> Scenario {
             r.beh[w].target_msg = 0;
         }
     }
-    let (clients, stop) = if r.verb == Verb::HardStop { (vec![], Some(r)) } else { (vec![vec![r]], None) };
-    Scenario { case: s.case, seed: s.seed, workers: s.workers, clients, stop, exhaustive_block: s.exhaustive_block, pre_closed, chatty: s.chatty.clone() }
+    let mut iso = Scenario::single(s.case, s.seed, s.workers, r);
+    iso.exhaustive_block = s.exhaustive_block;
+    iso.pre_closed = pre_closed;
+    iso.chatty = s.chatty.clone();
+    iso
 }
 
 fn run_case(ctx: &Ctx, case: u64, plan: (u64, u64), rep: &mut Report) {
     let s = gen_scenario(ctx.seed, case, plan.0, plan.1);
+    if s.skipped_by_design {
+        // a soft stop has no deadline by design: with a worker that never ends it waits for ever,
+        // which the statement cannot hold against it; the assignment is not run
+        rep.obs("soft_stop_assignments_with_a_never_ending_worker_not_run", 1);
+        if s.exhaustive_block {
+            rep.obs(&format!("exhaustive_block_cases:W={}", s.workers), 1);
+        }
+        return;
+    }
     let run = run_scenario(&ctx.root, &s);
     evaluate(ctx, &s, &run, rep, true);
     // shape of the case for the distinct count
@@ -1942,7 +2222,44 @@ fn evaluate(ctx: &Ctx, s: &Scenario, run: &CaseRun, rep: &mut Report, allow_reru
     let judge = Judge { ctx, s, run };
     for (c, reqs) in run.obs.iter().enumerate() {
         for q in 0..reqs.len() {
-            if judge.judge(c, q, rep) == Verdict::Miss {
+            let verdict = judge.judge(c, q, rep);
+            if let Verdict::TimeBound(sig, _, _) = &verdict {
+                rep.obs("late_answers_accepted", 1);
+                let tag = judge.req(c, q).tag.clone();
+                let mut attempts = vec![s.clone()];
+                if s.clients.iter().map(|v| v.len()).sum::<usize>() + s.stop.iter().count() > 1 {
+                    attempts.insert(0, isolated(s, run, c, q));
+                }
+                let mut reproduced = false;
+                for sc in attempts {
+                    let run2 = run_scenario(&ctx.root, &sc);
+                    if run2.lab_error.is_some() {
+                        continue;
+                    }
+                    let j2 = Judge { ctx, s: &sc, run: &run2 };
+                    let mut scratch = rep.fork();
+                    for (c2, reqs) in run2.obs.iter().enumerate() {
+                        for q2 in 0..reqs.len() {
+                            if j2.req(c2, q2).tag != tag {
+                                continue;
+                            }
+                            if let Verdict::TimeBound(sig2, what2, witness2) = j2.judge(c2, q2, &mut scratch) {
+                                if &sig2 == sig && !reproduced {
+                                    reproduced = true;
+                                    violate_weighted(rep, scenario_weight(&sc), &sig2, &format!("{what2}; reproduced on a fresh hub"), witness2);
+                                }
+                            }
+                        }
+                    }
+                    if reproduced {
+                        break;
+                    }
+                }
+                if !reproduced {
+                    rep.inconclusive("late answer accepted once, not reproduced on a fresh hub (hub thread short of CPU?)");
+                }
+            }
+            if verdict == Verdict::Miss {
                 rep.obs("no_final_answer_by_deadline", 1);
                 if !allow_rerun {
                     continue;
@@ -2055,13 +2372,16 @@ fn evaluate(ctx: &Ctx, s: &Scenario, run: &CaseRun, rep: &mut Report, allow_reru
 pub fn run(ctx: &Ctx) -> Report {
     let mut rep = Report::new(
         "fault_enumeration",
-        "one real CommandHub per case with W scripted workers (each registered with the pid of a dummy child) and a worker_timeout of 1 s. Block 1 enumerates, for each verb family {mutating, query, metrics, status, load_state, reload, hard_stop}, ALL assignments of the 8 worker behaviours {ok, failure, silent, close channel, duplicate ok, late ok after the deadline, k x processing then final, answer with unknown id} to W=1 and W=2 workers on a single request (8+64 per family; `exhaustive` refers to this sub-space; delays, k and the message hit in multi-message verbs are seeded). Block 2 (8 cases) overlaps two deadlines: request A with one late-answering worker, request B of another client 0.6-0.8 s later with a mute worker. Block 3 (race) has well-behaved workers that also flood answers with unknown ids around each dispatch, 6-8 sequential requests. Block 4 samples W in 1..4 (mostly 3..4), 1..8 concurrent clients with 1..3 requests each, random behaviours and delays, optionally a final HardStop. Oracle: exactly one final answer per request within worker_timeout + 3 s (a miss is re-run on a fresh hub, first the request alone with the workers doing to it what they did, then the whole scenario, and only a reproduced miss is a violation, else inconclusive); final OK only if every worker that received the request had written a successful answer for each of its messages before the client saw the final answer; no foreign tag/content in any message; hub thread alive (no panic under /repo) and answering a fresh ListWorkers. A case is non-trivial when some worker misbehaves or clients are concurrent; distinct = distinct (W, verbs, behaviour classes, delays) shapes",
+        "one real CommandHub per case with W scripted workers (each registered with the pid of a dummy child) and a worker_timeout of 1 s. Block 1 enumerates, for each verb family {mutating, query, metrics, status, load_state, reload, hard_stop, soft_stop}, ALL assignments of the 10 worker behaviours {ok, failure, silent, close channel, duplicate ok, late ok after the deadline, k x processing then final, answer with unknown id, ok then close at once, endless processing notices without a final answer} to W=1 and W=2 workers on a single request (10+100 per family; `exhaustive` refers to this sub-space; delays, k, notice period and the message hit in multi-message verbs are seeded; soft-stop assignments with a never-ending worker are not run, see assumptions). Block 2 (8 cases) overlaps two deadlines: request A with one late-answering worker, request B of another client 0.6-0.8 s later with a mute worker. Block 3 (16 cases, every family, W=1..2) holds the hub thread busy (another client's SaveState into a FIFO nobody reads yet) while one worker acknowledges and closes its channel, so that answer and hang-up reach the hub in one event. Block 4 (16 cases) loads state files that are sound, have valid records followed by a truncated or a garbage record, or hold nothing readable, with acknowledging or mute workers, followed by a second request on the same connection. Block 5 (race) has well-behaved workers that also flood answers with unknown ids around each dispatch, 6-8 sequential requests. Block 6 samples W in 1..4 (mostly 3..4), 1..8 concurrent clients with 1..3 requests each, random behaviours, delays and state-file damage, optionally a final HardStop or SoftStop. Oracle: exactly one final answer per request within worker_timeout + 3 s and nothing after it (a miss is re-run on a fresh hub, first the request alone with the workers doing to it what they did, then the whole scenario, and only a reproduced miss is a violation, else inconclusive); final OK only if every worker that received the request had written a successful answer for each of its messages before the client saw the final answer; no foreign tag/content in any message; hub thread alive (no panic under /repo) and answering a fresh ListWorkers. A case is non-trivial when some worker misbehaves or clients are concurrent; distinct = distinct (W, verbs, behaviour classes, delays) shapes",
     );
     rep.assume("a worker counts as alive at dispatch iff it read the request off its channel; requests racing with a scripted channel close are exempt");
     rep.assume("Status is not among the verbs the statement quantifies over: an OK whose worker list is truthful (no mute worker reported RUNNING) is accepted and counted as exempt");
-    rep.assume("SoftStop is not driven: it waits for the workers' sessions to end by design (no deadline), so silence past the worker timeout is its normal behaviour; HardStop is the stop verb exercised");
+    rep.assume("SoftStop has no deadline by design (it waits for the workers' sessions to end): it is driven only with workers that eventually send a final answer or close their channel, and a late answer is a plain answer there; assignments with a never-ending worker (silent, unknown id, endless processing) are not run");
+    rep.assume("a worker that acknowledges and closes its channel at once has acknowledged: OK is accepted; the statement also lets a disconnect turn the verdict into a failure, so FAILURE is accepted too (counted); what is demanded is exactly one final answer in time");
+    rep.assume("PROCESSING notices are not an answer: a worker that only sends notices did not answer within the worker timeout, for the per-answer deadline of LoadState/ReloadConfiguration as well (only final answers and further dispatches may push that deadline back)");
+    rep.assume("a LoadState of a damaged or unreadable state file must get exactly one final answer; which status is not judged by this property");
     rep.assume("a final FAILURE although every live worker acknowledged is not judged (the statement only bounds when OK is allowed); it is counted");
-    rep.assume("each client sends one request at a time per connection (pipelining is outside the stated quantifier); untagged verbs (Status, QueryClustersHashes, HardStop) are in flight one at a time per hub so that worker-side requests can be attributed");
+    rep.assume("each client sends one request at a time per connection (pipelining is outside the stated quantifier); untagged verbs (Status, QueryClustersHashes, HardStop, SoftStop) are in flight one at a time per hub so that worker-side requests can be attributed");
     for k in [
         "beh:mutating:silent",
         "beh:mutating:failure",
@@ -2072,6 +2392,15 @@ pub fn run(ctx: &Ctx) -> Report {
         "beh:mutating:processing_then_final",
         "beh:query:failure",
         "beh:load_state:silent",
+        "beh:mutating:ok_then_close",
+        "beh:mutating:endless_processing",
+        "beh:load_state:endless_processing",
+        "beh:soft_stop:ok_then_close",
+        "beh:soft_stop:close",
+        "hub_thread_held_busy_confirmed",
+        "load_state_file:valid_records_then_truncated_record",
+        "load_state_file:valid_records_then_garbage_record",
+        "load_state_file:no_readable_record",
         "final_ok_every_live_worker_acknowledged",
         "final_failure_with_faulty_worker",
         "finals_at_or_after_worker_timeout",
@@ -2142,8 +2471,8 @@ pub fn run(ctx: &Ctx) -> Report {
         rep.case(only, true);
         return rep;
     }
-    let sampled = ctx.opt_u64("sampled", ctx.tier.pick(260, 3000));
-    let n = exhaustive_block_len() * exhaustive_reps + OVERLAP_CASES + race_cases + sampled;
+    let sampled = ctx.opt_u64("sampled", ctx.tier.pick(200, 3000));
+    let n = exhaustive_block_len() * exhaustive_reps + OVERLAP_CASES + SAME_TICK_CASES + DAMAGED_STATE_CASES + race_cases + sampled;
     let mut c2 = ctx.clone();
     c2.threads = ctx.opt_u64("par", (ctx.threads as u64 * 4).clamp(8, 96)) as usize;
     let from = ctx.opt_u64("from", 0);
@@ -2166,7 +2495,7 @@ pub fn run(ctx: &Ctx) -> Report {
     rep.exhaustive = Some(complete);
     rep.set(
         "exhaustive_subspace",
-        json!({"what": "all assignments of 8 behaviour classes to W<=2 workers on a single request, per verb family",
+        json!({"what": "all assignments of 10 behaviour classes to W<=2 workers on a single request, per verb family",
             "families": FAMILY_VERBS.iter().map(|v| v.family()).collect::<Vec<_>>(),
             "assignments_per_family": EXHAUSTIVE_PER_FAMILY, "cases_expected": exhaustive_block_len() * exhaustive_reps, "cases_run": done,
             "complete": complete}),
